@@ -31,8 +31,10 @@ def _l1(x):
     return x.encode("utf-8").decode("latin-1")   # world paths are latin-1 views of the byte strings
 
 
-DIRNAMES = [_l1(x) for x in ["a", "b", "c", "sub", "a+b", "x-y", "d.e", "(p)", "[q]", "żółw", "dir w", "UP", "日本"]]
-FILENAMES = [_l1(x) for x in ["f.txt", "g.TXT", "h.dat", "k", "m.txt", "n.bin", "README", "x1.txt", "ż.txt"]]
+DIRNAMES = [_l1(x) for x in ["a", "b", "c", "sub", "a+b", "x-y", "d.e", "(p)", "[q]", "żółw", "dir w", "UP", "日本",
+                             # a regex metacharacter followed by a digit, by nothing, or by another metacharacter
+                             "r-1", "v1.2", "c++", "x-"]]
+FILENAMES = [_l1(x) for x in ["f.txt", "g.TXT", "h.dat", "k", "m.txt", "n.bin", "README", "x1.txt", "ż.txt", "k$", "^k"]]
 
 
 def gen_case(seed, i):
@@ -121,11 +123,22 @@ def gen_case(seed, i):
             opts["exclude"] = [rng.choice([r".*\.dat|.*/b/.*", r".*/sub", r"k|README", r".*/a|.*/d", r"@W@/R1/a"])]
     else:
         if rng.random() < 0.3:
-            opts["name"] = [rng.choice(["*.txt", "*.TXT", "?", "f.*", "*", "README", "x1.txt"])]
+            opts["name"] = [rng.choice(["*.txt", "*.TXT", "?", "f.*", "*", "README", "x1.txt", "k$", "*$", "^*", "^k"])]
         if rng.random() < 0.3:
             opts["path"] = [rng.choice(["**/sub/**", "@W@/R1/**", "*/*", "**/a+b/*", "**/*.txt", "*", "@W@/**/d.e/**", "sub/*", "**/(p)/**", "**",
                                         # patterns whose literal prefix is long / non-ASCII and that need a descent below it
-                                        "*/**", "*/*/*", "a/**", "sub/**", "@W@/R1/żółw/**", "@W@/R1/日本/**", "@W@/R2/żółw/*/*", "@W@/R1/a+b/**"])]
+                                        "*/**", "*/*/*", "a/**", "sub/**", "@W@/R1/żółw/**", "@W@/R1/日本/**", "@W@/R2/żółw/*/*", "@W@/R1/a+b/**",
+                                        "@W@/R1/r-1/**", "@W@/R1/v1.2/**", "@W@/R1/c++/*/*", "r-1/**", "c++/**", "x-/**", "@W@/R1/x-/**"])]
+        if rng.random() < 0.35 and any("/" in d for d in dirs):
+            # a pattern built from a directory that EXISTS in this world (whatever its name holds: regex
+            # metacharacters, spaces, non-ASCII text), absolute or relative to the working directory
+            d = rng.choice([d for d in dirs if "/" in d])
+            esc = "".join(("\\" + ch) if ch in "[]{}?*\\" else ch for ch in d)
+            tail = rng.choice(["/**", "/*", "/*/*", "/**/*.txt"])
+            opts["path"] = ["@W@/" + esc + tail]
+            if rng.random() < 0.4:
+                opts["cwd"] = d.rsplit("/", 1)[0]
+                opts["path"] = ["".join(("\\" + ch) if ch in "[]{}?*\\" else ch for ch in d.rsplit("/", 1)[1]) + tail]
         if rng.random() < 0.3:
             opts["exclude"] = [rng.choice(["**/sub/**", "**/*.dat", "@W@/R1/a/**", "*", "**/b/*", "**/\\[q\\]/**", "*/*.txt", "**/żółw/**",
                                            # patterns that fully match one entry and are a *string* prefix of a sibling
